@@ -1,3 +1,180 @@
 package main
 
-func runMutants(prop, repo, verif string) int { return 0 }
+// Both-ways self-test (thorough tier). Each committed mutant is a one-place source
+// edit (exact substring replacement in one file) that still type-checks; it is
+// applied through a go/packages overlay - no copy of the repository is made and
+// /repo is not touched - the whole program is re-loaded and the property's rules
+// are re-run. A breaking mutant must make the expected rule fire on the expected
+// construct; a benign mutant (rename, reorder, extract, log line) must make
+// nothing fire. A mutant whose anchor text no longer exists in /repo is reported
+// as stale and skipped (the tree changed; the rules themselves never match text).
+
+import (
+	"encoding/json"
+	"fmt"
+	"os"
+	"path/filepath"
+	"strings"
+	"time"
+)
+
+type Mutant struct {
+	Name   string   `json:"name"`
+	File   string   `json:"file"` // repo-relative
+	Old    string   `json:"old"`
+	New    string   `json:"new"`
+	Expect string   `json:"expect"` // substring of the finding key rule:construct ("" for benign)
+	Benign bool     `json:"benign"`
+	Why    string   `json:"why"`
+	Props  []string `json:"props"` // benign set only: properties whose rules look at this file
+}
+
+type MutantResult struct {
+	Name    string   `json:"name"`
+	Benign  bool     `json:"benign"`
+	Status  string   `json:"status"` // caught | silent-as-expected | MISSED | FALSE-ALARM | stale | load-error
+	Keys    []string `json:"findings,omitempty"`
+	Expect  string   `json:"expect,omitempty"`
+	Seconds float64  `json:"seconds"`
+}
+
+func loadMutants(verif, prop string) ([]Mutant, error) {
+	var out []Mutant
+	for _, name := range []string{prop + ".json", "benign.json"} {
+		b, err := os.ReadFile(filepath.Join(verif, "mutants", name))
+		if err != nil {
+			if os.IsNotExist(err) {
+				continue
+			}
+			return nil, err
+		}
+		var ms []Mutant
+		if err := json.Unmarshal(b, &ms); err != nil {
+			return nil, fmt.Errorf("%s: %v", name, err)
+		}
+		for _, m := range ms {
+			if name == "benign.json" {
+				m.Benign = true
+				applies := len(m.Props) == 0
+				for _, pp := range m.Props {
+					if pp == prop {
+						applies = true
+					}
+				}
+				if !applies {
+					continue
+				}
+			}
+			out = append(out, m)
+		}
+	}
+	return out, nil
+}
+
+// evaluate runs a property's rules on p and returns the findings that are not
+// listed in known_findings.json, plus unresolved anchors.
+func evaluate(pd *propDef, p *Program, verif string) (newKeys []string, unresolved []string, err error) {
+	defer func() {
+		if r := recover(); r != nil {
+			err = fmt.Errorf("checker panic: %v", r)
+		}
+	}()
+	c := newCheck(pd.id, "thorough", p)
+	pd.run(c)
+	kf, kerr := loadKnown(filepath.Join(verif, "known_findings.json"))
+	if kerr != nil {
+		return nil, nil, kerr
+	}
+	known := map[string]bool{}
+	for _, k := range kf.Findings {
+		if k.Property == pd.id {
+			known[k.Key] = true
+		}
+	}
+	seen := map[string]bool{}
+	for _, f := range c.findings {
+		if !known[f.Key()] && !seen[f.Key()] {
+			seen[f.Key()] = true
+			newKeys = append(newKeys, f.Key())
+		}
+	}
+	return newKeys, c.unresolved, nil
+}
+
+func runMutantSet(pd *propDef, repo, verif string) ([]MutantResult, bool) {
+	ms, err := loadMutants(verif, pd.id)
+	if err != nil {
+		fmt.Printf("SELFTEST error: %v\n", err)
+		return nil, false
+	}
+	ok := true
+	var out []MutantResult
+	for _, m := range ms {
+		res := MutantResult{Name: m.Name, Benign: m.Benign, Expect: m.Expect}
+		t0 := nowSeconds()
+		full := filepath.Join(repo, m.File)
+		src, rerr := os.ReadFile(full)
+		if rerr != nil || strings.Count(string(src), m.Old) != 1 {
+			res.Status = "stale"
+			out = append(out, res)
+			fmt.Printf("MUTANT %-40s stale (anchor text not found exactly once in %s) - skipped\n", m.Name, m.File)
+			continue
+		}
+		mutated := strings.Replace(string(src), m.Old, m.New, 1)
+		p, lerr := loadProgram(repo, map[string][]byte{full: []byte(mutated)}, false)
+		if lerr != nil {
+			res.Status = "load-error"
+			ok = false
+			out = append(out, res)
+			fmt.Printf("MUTANT %-40s LOAD-ERROR %v\n", m.Name, lerr)
+			continue
+		}
+		keys, unres, eerr := evaluate(pd, p, verif)
+		res.Keys = keys
+		res.Seconds = nowSeconds() - t0
+		switch {
+		case eerr != nil:
+			res.Status = "load-error"
+			ok = false
+		case m.Benign:
+			if len(keys) == 0 && len(unres) == 0 {
+				res.Status = "silent-as-expected"
+			} else {
+				res.Status = "FALSE-ALARM"
+				res.Keys = append(res.Keys, unres...)
+				ok = false
+			}
+		default:
+			hit := false
+			for _, k := range keys {
+				if strings.Contains(k, m.Expect) {
+					hit = true
+				}
+			}
+			if hit {
+				res.Status = "caught"
+			} else {
+				res.Status = "MISSED"
+				ok = false
+			}
+		}
+		fmt.Printf("MUTANT %-40s %s %v (%.1fs)\n", m.Name, res.Status, res.Keys, res.Seconds)
+		out = append(out, res)
+	}
+	return out, ok
+}
+
+func nowSeconds() float64 { return float64(time.Now().UnixNano()) / 1e9 }
+
+func runMutants(prop, repo, verif string) int {
+	pd := props[prop]
+	if pd == nil {
+		fmt.Printf("unknown property %q\n", prop)
+		return 2
+	}
+	_, ok := runMutantSet(pd, repo, verif)
+	if !ok {
+		return 2
+	}
+	return 0
+}
